@@ -214,7 +214,8 @@ def unknown_ref_is_error(prog, chk):
             elif fate == "ok-exit":
                 chk.bad("A6.unknown-ref", key, where, f"when the referenced element is unknown this function can still return normally (via lines {R.path_lines(body, detail) if isinstance(detail, list) else detail}): the reference is silently ignored instead of failing / being retried")
             else:
-                chk.bad("A6.unknown-ref", key, where, f"the result of get_element is {fate} ({detail}); cannot establish that None leads to an error")
+                # the Option is stored / handed on (a struct field, a helper): what happens on None is decided elsewhere
+                chk.undecided("A6.unknown-ref", key, where, f"the result of get_element is {fate} ({detail}); whether None leads to an error cannot be established here")
     chk.floor("A6.unknown-ref", n, 10, "get_element call site")
 
 
